@@ -430,3 +430,91 @@ Proof. intros d v H. apply (tight_depth_mono (N.succ d)); [exact H | lia]. Qed.
 
 Lemma string_spec : spec_string.
 Proof. exact string_round_trip. Qed.
+
+(* ------------------------------------------------------------------------- *)
+(* Part D: the error codec *)
+
+Definition kc_code : bytes := [99; 111; 100; 101].
+Definition kc_message : bytes := [109; 101; 115; 115; 97; 103; 101].
+Definition kc_data : bytes := [100; 97; 116; 97].
+
+(* the members marshal_error writes: q = compacted data, cq = its tree *)
+Definition err_items (e : werr) (q : bytes) (cq : cst) : list item :=
+  [(kc_code, z_dec (we_code e), CNum (z_dec (we_code e)))] ++
+  (if beq (we_msg e) [] then [] else [(kc_message, escape_string (we_msg e), CStr (escape_body (we_msg e)))]) ++
+  (if beq (we_data e) [] then [] else [(kc_data, q, cq)]).
+
+Lemma marshal_error_text e b : marshal_error e = Some b ->
+  exists q, (beq (we_data e) [] = false -> compact (we_data e) = Some q) /\
+            forall cq, b = obj_text (map item_kv (err_items e q cq)).
+Proof.
+  unfold marshal_error, err_items. cbv zeta.
+  set (zd := z_dec (we_code e)).
+  set (A := [(kc_code, zd, CNum zd)]).
+  set (B := if beq (we_msg e) [] then [] else [(kc_message, escape_string (we_msg e), CStr (escape_body (we_msg e)))]).
+  assert (Hb : s_code ++ zd ++ (if beq (we_msg e) [] then [] else s_message ++ escape_string (we_msg e)) = obj_open (map item_kv (A ++ B))
+               /\ map item_kv (A ++ B) <> []).
+  { unfold A, B. destruct (beq (we_msg e) []).
+    - split; [rewrite app_nil_r; reflexivity | discriminate].
+    - split; [|discriminate].
+      transitivity (obj_open ([(kc_code, zd)] ++ [(kc_message, escape_string (we_msg e))])); [|reflexivity].
+      rewrite obj_snoc by discriminate. reflexivity. }
+  destruct Hb as (Hb & Hne). rewrite Hb.
+  destruct (beq (we_data e) []) eqn:Ed.
+  - intros H; apply some_eq in H; subst b. exists []. split; [discriminate|]. intros cq.
+    rewrite app_nil_r. reflexivity.
+  - destruct (compact (we_data e)) as [q|] eqn:Ec; [|discriminate]. intros H; apply some_eq in H; subst b.
+    exists q. split; [reflexivity|]. intros cq. rewrite (app_assoc A B), (map_app item_kv (A ++ B)). change (map item_kv [(kc_data, q, cq)]) with [(kc_data, q)]. unfold obj_text.
+    rewrite obj_snoc by exact Hne. rewrite <- !app_assoc. reflexivity.
+Qed.
+
+Lemma err_member_code e0 ok lit :
+  err_member (e0, ok) (item_mem (kc_code, lit, CNum lit)) =
+  match int32_of_literal lit with
+  | Some z => ({| we_code := z; we_msg := we_msg e0; we_data := we_data e0 |}, ok)
+  | None => (e0, false)
+  end.
+Proof. reflexivity. Qed.
+
+Lemma err_member_message e0 ok t b :
+  err_member (e0, ok) (item_mem (kc_message, t, CStr b)) = ({| we_code := we_code e0; we_msg := unquote b; we_data := we_data e0 |}, ok).
+Proof. reflexivity. Qed.
+
+Lemma err_member_data e0 ok t c :
+  err_member (e0, ok) (item_mem (kc_data, t, c)) = ({| we_code := we_code e0; we_msg := we_msg e0; we_data := ctext c [] |}, ok).
+Proof. reflexivity. Qed.
+
+Lemma error_codec_spec : spec_error_codec.
+Proof.
+  intros d e b Hd [Hc Hdat] Hm.
+  destruct (marshal_error_text e b Hm) as (q & Hq & Hb).
+  assert (Hcq : exists cq, beq (we_data e) [] = false -> PV (N.succ d) q cq []).
+  { destruct (beq (we_data e) []) eqn:Ed; [exists CNull; discriminate|].
+    destruct Hdat as [Hdat|(q' & Hq' & Ht)]; [rewrite Hdat in Ed; discriminate Ed|].
+    rewrite (Hq eq_refl) in Hq'. injection Hq' as <-. destruct (tight_PV _ _ Ht) as [cq Hcq]. exists cq. intros _. exact Hcq. }
+  destruct Hcq as [cq Hcq]. specialize (Hb cq).
+  assert (HF : Forall (item_ok (N.succ d)) (err_items e q cq)).
+  { unfold err_items. apply Forall_app. split; [|apply Forall_app; split].
+    - constructor; [|constructor]. split; [reflexivity | apply z_dec_PV].
+    - destruct (beq (we_msg e) []); constructor; [|constructor]. split; [reflexivity|].
+      pose proof (escape_string_PV (we_msg e) (N.succ d) []) as H. rewrite app_nil_r in H. exact H.
+    - destruct (beq (we_data e) []) eqn:Ed; constructor; [|constructor]. split; [reflexivity | exact (Hcq eq_refl)]. }
+  assert (Hne : err_items e q cq <> []) by (unfold err_items; discriminate).
+  pose proof (obj_PV d _ [] Hne Hd HF) as Hpv. rewrite app_nil_r, <- Hb in Hpv.
+  split; [exact (PV_tight _ _ _ Hpv)|].
+  unfold unmarshal_error. rewrite (parse_doc_PV _ _ (PV_depth _ 0 _ _ _ Hpv (N.le_0_l d))).
+  unfold err_items. rewrite !map_app. cbn [map]. rewrite !fold_left_app. cbn [fold_left].
+  rewrite err_member_code, (int32_of_z_dec _ Hc).
+  destruct (beq (we_msg e) []) eqn:Em; destruct (beq (we_data e) []) eqn:Ed; cbn [map fold_left];
+    rewrite ?err_member_message, ?err_member_data; cbn [we_code we_msg we_data err_zero]; f_equal; f_equal; f_equal.
+  - apply beq_eq in Em. rewrite Em. reflexivity.
+  - destruct (compact (we_data e)); reflexivity.
+  - apply beq_eq in Em. rewrite Em. reflexivity.
+  - rewrite (Hq eq_refl). exact (eq_sym (PV_text _ _ _ _ (Hcq eq_refl))).
+  - destruct (valid_utf8 (we_msg e)) eqn:V; [apply unquote_escape_body; exact V|].
+    rewrite (proj1 (unmarshal_string_escape (we_msg e))). reflexivity.
+  - destruct (compact (we_data e)); reflexivity.
+  - destruct (valid_utf8 (we_msg e)) eqn:V; [apply unquote_escape_body; exact V|].
+    rewrite (proj1 (unmarshal_string_escape (we_msg e))). reflexivity.
+  - rewrite (Hq eq_refl). exact (eq_sym (PV_text _ _ _ _ (Hcq eq_refl))).
+Qed.
